@@ -374,6 +374,10 @@ func runDepositHistory(c DepositCase) Outcome {
 				if ok, _ := b.validity(f.keys, f.params); ok {
 					v = vAccept
 				}
+				if !headers[b.height] {
+					headers[b.height] = true
+					msg.BlockHeaders = append(msg.BlockHeaders, b.header())
+				}
 			}
 			msg.Deposits = append(msg.Deposits, d)
 			key := fmt.Sprintf("%x:%d", world.DSha(b.blk.Raw[b.pos]), b.outIdx)
